@@ -1,6 +1,7 @@
 package main
 
 import (
+	"go/types"
 	"encoding/json"
 	"flag"
 	"fmt"
@@ -167,6 +168,24 @@ func (x *Exec) findFunc(pkgPath, rel string) *ssa.Function {
 		if fn.Pkg == sp && fn.RelString(sp.Pkg) == rel {
 			found = fn
 			break
+		}
+	}
+	if found == nil && strings.HasPrefix(rel, "(") {
+		// a method that AllFunctions did not reach: look it up through the method set of its receiver type
+		i := strings.Index(rel, ").")
+		if i > 0 {
+			recv, mname := rel[1:i], rel[i+2:]
+			ptr := strings.HasPrefix(recv, "*")
+			recv = strings.TrimPrefix(recv, "*")
+			if tm := sp.Type(recv); tm != nil {
+				var t types.Type = tm.Type()
+				if ptr {
+					t = types.NewPointer(t)
+				}
+				if sel := x.prog.MethodSets.MethodSet(t).Lookup(sp.Pkg, mname); sel != nil {
+					found = x.prog.MethodValue(sel)
+				}
+			}
 		}
 	}
 	return found
